@@ -60,3 +60,14 @@ Example c01_example :
   map o_log (snd r) = [[Log LNew 1]; [Log LBadKey 3]; [Log LNew 2]; [Log LDup 4]; [Log (LDisc false) 2];
                        [Log (LDisc false) 1]; [Log LTeardown 5]].
 Proof. vm_compute. repeat split; reflexivity. Qed.
+
+From CRS Require Import Lib.Pct Model.HttpIds Proofs.HttpPair.
+(** At the HTTP surface (Model/HttpIds.v: the key is the percent-decoded path
+    element, untouched otherwise): of two requests /i/{a}, /o/{b} arriving in
+    either order on an idle server, the second attaches exactly when the
+    decoded elements are the same bytes - computed through the broker model's
+    two admissions; case, surrounding blanks, a common prefix, a second round
+    of decoding are not normalised away. *)
+Theorem c01_http_pairing : forall a b first_is_in,
+  pct_decode a <> [] -> http_pairs a b first_is_in = beq (pct_decode a) (pct_decode b).
+Proof. exact http_pair_iff. Qed.
